@@ -419,6 +419,16 @@ Theorem C11_ufvk_nt_keeps_transparent_item : forall O net hrp raw k,
        /\ raw = container_raw hrp (canon_items t s1 o1 u).
 Proof. exact ufvk_decode_nt_sound. Qed.
 
+Theorem C11_nt_narrowing_drops_kept_items : forall O k i,
+  fvk_t k = None -> ufvk_to_uivk O k = Ok i ->
+  ivk_t i = None /\ ivk_unknown i = []
+  /\ to_container (uivk_items i)
+     = if is_some (fvk_s k) || is_some (fvk_o k)
+       then Ok (oapp (option_map (fun b => (2, s_fvk_ivk O b)) (fvk_s k))
+                ++ oapp (option_map (fun b => (3, o_fvk_ivk O b)) (fvk_o k)))
+       else Panic.
+Proof. exact narrow_nt. Qed.
+
 Theorem C11_ufvk_nt_decode_total : forall O net i,
   dinput_ok i -> (forall x, dec_s_fvk O x <> OPanic) -> (forall x, dec_o_fvk O x <> OPanic) ->
   ufvk_decode_nt O net i <> Panic.
